@@ -388,11 +388,10 @@ where
                 match self.radio_kind.process_irq_event(self.radio_mode, None, true).await {
                     Ok(Some(actual_state)) => match actual_state {
                         IrqState::PreambleReceived => (),
-                        IrqState::Done => {
-                            let received_len = self.radio_kind.get_rx_payload(packet_params, receiving_buffer).await?;
-                            let rx_pkt_status = self.radio_kind.get_rx_packet_status().await?;
-                            return Ok((received_len, rx_pkt_status));
-                        }
+                        IrqState::Done => match self.get_rx_result(packet_params, receiving_buffer).await {
+                            Ok(received) => return Ok(received),
+                            Err(err) => break err,
+                        },
                     },
                     Ok(None) => (),
                     Err(err) => break err,
